@@ -56,8 +56,8 @@ prop(
     "ProcessEvents returns; nothing may be emitted afterwards. Non-trivial = (a state-changing action while a note key was held AND a second "
     "note key overlapping) OR disconnect with a key/axis held; distinct by hash of (description, history).",
     [
-        dict(test="TestC01", shards=16, checks_quick=1500, checks_thorough=60000),
-        dict(test="TestC01Cuts", shards=16, checks_quick=60, checks_thorough=2500),
+        dict(test="TestC01", shards=16, checks_quick=8000, checks_thorough=60000),
+        dict(test="TestC01Cuts", shards=16, checks_quick=250, checks_thorough=2500),
     ],
     level_text="Generated-history search with disconnect injected at every prefix of bounded histories (fault enumeration over cut points) and "
                "at random points of longer ones; the oracle is receiver-side only, so it does not depend on which messages HIDI chooses to send.",
@@ -73,7 +73,7 @@ prop(
     "suppressed the Note On), exactly one in mode off, at most one otherwise, never a Note On; every octave/semitone/channel/mapping/"
     "multinote/cc_learning press or release emits zero messages. Non-trivial = at least one key released under a different "
     "(octave, semitone, channel, mapping) than at its press; distinct by hash of the case.",
-    [dict(test="TestC02", shards=16, checks_quick=1500, checks_thorough=60000)],
+    [dict(test="TestC02", shards=16, checks_quick=8000, checks_thorough=60000)],
     level_text="Generated-history search against a wire-level pairing oracle (observed Note On vs observed Note Off per key).",
     level_note=_ENGINE_NOTE,
     technique="stateful property-based testing (rapid), observed-press/observed-release pairing oracle",
@@ -87,7 +87,7 @@ prop(
     "rules, exact message sequence per press/release step. Non-trivial = a press or release while >= 1 other key holds the same "
     "(channel, pitch); distinct by hash of the case.",
     [
-        dict(test="TestC03", shards=16, checks_quick=1500, checks_thorough=60000),
+        dict(test="TestC03", shards=16, checks_quick=8000, checks_thorough=60000),
         dict(test="TestC03Words", shards_quick=4, shards_thorough=16, replayable=False),
     ],
     level_text="Generated-history search plus bounded-exhaustive press/release words, compared step by step with a reference model of the mode rules.",
@@ -104,7 +104,7 @@ prop(
     "State() equals the reference model; every note press emits exactly NoteOn(((ch-1+off) mod 16)+1, base+12*oct+semi, velocity) or nothing "
     "when out of 0-127. Non-trivial = out-of-range press, |12*octave| > 127, wrapping offset, saturating step or pair reset.",
     [
-        dict(test="TestC04", shards=16, checks_quick=1500, checks_thorough=60000),
+        dict(test="TestC04", shards=16, checks_quick=8000, checks_thorough=60000),
         dict(test="TestC04Grid", shards=16, replayable=False),
     ],
     level_text="Generated-history search plus an exhaustive arithmetic grid, compared with a reference model in unbounded integers.",
@@ -120,8 +120,8 @@ prop(
     "(2) metamorphic: every other step emits exactly what the same history without the panic emits (releases of keys held across the panic may "
     "emit nothing instead), states equal; (3) quiescence/disconnect leave nothing sounding. Non-trivial = panic with >= 1 key held and a later press.",
     [
-        dict(test="TestC13", shards=16, checks_quick=1000, checks_thorough=40000),
-        dict(test="TestC13All", shards=16, checks_quick=40, checks_thorough=1500),
+        dict(test="TestC13", shards=16, checks_quick=4000, checks_thorough=40000),
+        dict(test="TestC13All", shards=16, checks_quick=150, checks_thorough=1500),
     ],
     level_text="Generated-history search with a metamorphic oracle (history with panic vs the same history without).",
     level_note=_ENGINE_NOTE,
@@ -136,7 +136,7 @@ prop(
     "State() unchanged; empty sequence: never a signal; the history ends with a disconnect and nothing may stay sounding. Nothing is asserted "
     "about presses after the first completion. Non-trivial = sequence of >= 2 keys completed by a key other than the last configured one, "
     "a sequence key that is also a note/action key, or a near miss (a sequence key released before completion).",
-    [dict(test="TestC14", shards=16, checks_quick=1500, checks_thorough=60000)],
+    [dict(test="TestC14", shards=16, checks_quick=8000, checks_thorough=60000)],
     level_text="Generated-history search against a direct statement of the exit-sequence rule (held-set oracle).",
     level_note=_ENGINE_NOTE,
     technique="stateful property-based testing (rapid) with held-set oracle on the signal channel",
@@ -158,7 +158,7 @@ prop(
     "0/8192/16383 or of the linear map), monotonic in raw, physical end stops exactly 0/127/16383, inside the deadzone exactly the rest value "
     "(0, 63|64, 8192), only the axis' own controllers addressed, something transmitted once the position differs from rest. "
     "Non-trivial = the case contains an end stop, a position inside/at the deadzone, or a pair crossing the deadzone edge.",
-    [dict(test="TestC06", shards=16, checks_quick=600, checks_thorough=20000)],
+    [dict(test="TestC06", shards=16, checks_quick=2000, checks_thorough=20000)],
     level_text="Generated-input search; per generated configuration the sweep over a <=10-bit axis is exhaustive, 16-bit axes are sampled with edges.",
     level_note=_ANALOG_NOTE,
     technique="property-based testing (rapid) with exhaustive per-axis sweeps vs exact rational reference transfer function",
@@ -172,7 +172,7 @@ prop(
     "EVERY event at most one controller of each axis is non-zero; after every transmitting event the non-zero one is on the side of the exact "
     "shaped position (both zero at rest); only the axis' controllers are addressed; while learning is held a deflection not beyond half travel "
     "transmits nothing. Non-trivial = a direct jump between opposite sides, or a transmission while learning.",
-    [dict(test="TestC07", shards=16, checks_quick=2000, checks_thorough=60000)],
+    [dict(test="TestC07", shards=16, checks_quick=10000, checks_thorough=60000)],
     level_text="Generated-history search against receiver-side invariants.",
     level_note=_ANALOG_NOTE,
     technique="stateful property-based testing (rapid) with receiver-side invariants + exact side oracle",
@@ -187,7 +187,7 @@ prop(
     "Note On of the same excursion is permitted, not required), every Note Off releases exactly the Note On that was sent, never both "
     "directions sounding, a direction without a note never sounds, velocity 1-127. Positions within 1e-9 of a threshold are resynchronised from "
     "the wire. Non-trivial = a direction switched on; distinct by case hash.",
-    [dict(test="TestC08", shards=16, checks_quick=2000, checks_thorough=60000)],
+    [dict(test="TestC08", shards=16, checks_quick=10000, checks_thorough=60000)],
     level_text="Generated-history search against a reference state machine of the two directions.",
     level_note=_ANALOG_NOTE,
     technique="model-based stateful property-based testing (rapid) vs two-direction reference state machine",
@@ -203,7 +203,7 @@ prop(
     "cc / bidirectional cc / pitch_bend / key / action axes (signed, unsigned, centred, hat). Oracle: byte-level monitor on every emitted "
     "message: length 3, status Note On/Off, CC or Pitch Bend (so channel 1-16), both data bytes < 0x80; no panic. Non-trivial = accepted "
     "configuration with a non-default corner (channel != 1, offset >= 15, CC >= 100, velocity 1/127) whose history contains panic or an axis event.",
-    [dict(test="TestC05", shards=16, checks_quick=2500, checks_thorough=80000)],
+    [dict(test="TestC05", shards=16, checks_quick=10000, checks_thorough=80000)],
     level_text="Generated-configuration and -history search with a byte-level well-formedness monitor on everything the real device emits.",
     level_note=_ENGINE_NOTE,
     technique="property-based testing (rapid): parser-accepted corner configurations x histories, wire-format monitor",
@@ -220,8 +220,8 @@ prop(
     "Non-trivial = the TOML decoder accepted the document, so HIDI's own conversion code ran (accepted, or rejected by HIDI's validation); "
     "distinct by input hash (fuzzing: inputs kept for new coverage).",
     [
-        dict(test="TestC09", shards=16, checks_quick=25000, checks_thorough=600000),
-        dict(test="TestC09Hidi", bin="hidi", shards_quick=4, shards_thorough=16, checks_quick=5000, checks_thorough=100000),
+        dict(test="TestC09", shards=16, checks_quick=40000, checks_thorough=600000),
+        dict(test="TestC09Hidi", bin="hidi", shards_quick=4, shards_thorough=16, checks_quick=20000, checks_thorough=100000),
         dict(test="FuzzC09", fuzz=True, tiers=["thorough"], fuzztime="420s", shards=1, replay_test="TestC09", timeout_thorough=1800),
     ],
     level_text="Generated-input search (grammar-based + mutation-based) and, in the thorough tier, coverage-guided fuzzing with the no-panic / "
@@ -242,7 +242,7 @@ prop(
     "one invalidation from the property's list (22 kinds: unknown field at 8 anchors, unknown key/axis/exit/deadzone name, bad note text, "
     "unknown action / axis action / action_negative / type / collision mode, note / cc / offsets / velocity / default channel out of range, "
     "missing default mapping) must yield an error. Non-trivial = an axis with an optional field, or any invalidation; distinct by case hash.",
-    [dict(test="TestC10", shards=16, checks_quick=4000, checks_thorough=120000)],
+    [dict(test="TestC10", shards=16, checks_quick=12000, checks_thorough=120000)],
     level_text="Generated-input search with an independently built expected configuration (round trip description -> text -> parser -> view) "
                "and single-field invalidations that must be rejected.",
     level_note="Trusted: the TOML emitter in desc.go (spellings limited to what TOML 1.0 defines), the view functions in c10_test.go. Not asserted: "
@@ -264,7 +264,7 @@ prop(
     "error when none applies; unsupported types -> UnsupportedDeviceType; missing directory -> an error or that directory treated as empty. "
     "Non-trivial = noise present or a directory missing; distinct by case hash.",
     [
-        dict(test="TestC12", shards=16, checks_quick=400, checks_thorough=12000),
+        dict(test="TestC12", shards=16, checks_quick=1200, checks_thorough=12000),
         dict(test="TestC12Matrix", shards=16, replayable=False),
     ],
     exhaustive=True,
@@ -282,7 +282,7 @@ prop(
     "(so a notification for any other file is an excess), after every write/burst that touched a .toml file at least one further "
     "notification arrives within 10 s, the stream does not end before cancel, and after cancel a consumer that keeps receiving sees it end "
     "within 10 s. The watches are proven active first by a warm-up write per directory. Non-trivial = the case contains a TOML write.",
-    [dict(test="TestC19", shards=16, checks_quick=14, checks_thorough=400, shrinktime="5s", gomaxprocs=4)],
+    [dict(test="TestC19", shards=16, checks_quick=20, checks_thorough=400, shrinktime="5s", gomaxprocs=4)],
     level_text="Generated write/cancel schedules against a count-based oracle; 'eventually' is checked as 'within 10 s'.",
     level_note="Trusted: inotify on the sandbox file system queues one IN_MODIFY per write(2); kernel and goroutine timing are sampled, not controlled. "
                "Every warm-up write beyond one per directory weakens the upper bound by one (reported in the class histogram).",
@@ -302,8 +302,8 @@ prop(
     "for every order; HandlerType is invariant under permutation/duplication of the capability list. Non-trivial = >= 2 groups, one with "
     ">= 2 handlers of different classes.",
     [
-        dict(test="TestC20", shards=16, checks_quick=3000, checks_thorough=150000),
-        dict(test="TestC20AllOrders", shards=16, checks_quick=150, checks_thorough=6000),
+        dict(test="TestC20", shards=16, checks_quick=8000, checks_thorough=150000),
+        dict(test="TestC20AllOrders", shards=16, checks_quick=400, checks_thorough=6000),
     ],
     level_text="Generated multisets of handlers with permutation metamorphic relation (all orders for n <= 6) and partition/type invariants.",
     level_note="Trusted: the two handler classes the property names are decided by a set-based transcription of the capability tables (c20Class); "
@@ -325,7 +325,7 @@ prop(
     "verdict is a stable blocked state in two goroutine dumps 1 s apart (delivery goroutine parked in chan send, caller parked on the mutex), "
     "not a bare time-out; channels closed after removal. Non-trivial = >= 2 emitters with >= 1 consumer, or a detach of a consumer that had "
     "stopped reading; distinct by case hash.",
-    [dict(test="TestC15", shards=16, checks_quick=150, checks_thorough=6000, shrinktime="10s", gomaxprocs=16, timeout_quick=600)],
+    [dict(test="TestC15", shards=16, checks_quick=500, checks_thorough=6000, shrinktime="10s", gomaxprocs=16, timeout_quick=600)],
     level_text="Generated schedules of harness-owned actions against sequence-number oracles; interleavings inside the units' own goroutines "
                "are sampled by the Go scheduler under several GOMAXPROCS values, not enumerated.",
     level_note="Trusted: the harness consumers/feeder; cmd/hidi/manager.go itself needs evdev nodes and is represented by the same library calls "
@@ -348,7 +348,7 @@ prop(
     "template iff missing; absent directory -> exactly the full template tree; a rerun leaves the tree snapshot unchanged. "
     "Non-trivial = a truncated or longer factory file together with user files, or a crash state; distinct by case hash.",
     [
-        dict(test="TestC18", bin="hidi", shards=16, checks_quick=300, checks_thorough=12000),
+        dict(test="TestC18", bin="hidi", shards=16, checks_quick=1200, checks_thorough=12000),
         dict(test="TestC18Templates", bin="hidi", shards=1, replayable=False),
     ],
     level_text="Generated directory states incl. constructed crash states (interruption after any entry of the deterministic walk, at a generated "
@@ -379,7 +379,7 @@ prop(
     "property distinguishes (0 / 1 / more; at-end / free; channel k / k'), channel colours cross-checked between channel keys and other-channel "
     "highlights; after disconnect the last frame is all red. Non-trivial = observation with a held key and an external note on another channel "
     "under a non-zero transposition, or a layout lacking the LED of an action key.",
-    [dict(test="TestC17", wrap="mountns", shards=16, checks_quick=14, checks_thorough=400, shrinktime="20s", gomaxprocs=4, timeout_quick=900)],
+    [dict(test="TestC17", wrap="mountns", shards=16, checks_quick=24, checks_thorough=400, shrinktime="20s", gomaxprocs=4, timeout_quick=900)],
     level_text="Generated layouts/states against a reference frame function, on the real refresh loop over TCP.",
     level_note=_LED_NOTE,
     technique="stateful property-based testing (rapid) of the real LED loop vs reference frame function with learned role colours",
@@ -398,7 +398,7 @@ prop(
     "ended no goroutine of the device package is alive; (4) each device's MIDI output equals the output of the same history run alone "
     "(exact sequence; disconnect clean-up compared as a multiset because its order is a map walk). Non-trivial = a device whose stream ended "
     "with a note held after its LED loop had sent >= 1 frame; distinct by case hash.",
-    [dict(test="TestC16", bin="race", wrap="mountns", shards=16, checks_quick=6, checks_thorough=200, shrinktime="15s", gomaxprocs=4, timeout_quick=900)],
+    [dict(test="TestC16", bin="race", wrap="mountns", shards=16, checks_quick=12, checks_thorough=200, shrinktime="15s", gomaxprocs=4, timeout_quick=900)],
     level_text="Generated concurrent schedules under the Go race detector (happens-before based: an unsynchronised access pair is reported "
                "without having to hit the timing window), with termination, leak and solo-vs-concurrent differential oracles.",
     level_note=_LED_NOTE + " Schedules are sampled; a failure of this check cannot be shrunk reliably (the race detector reports each race once per "
